@@ -6,6 +6,8 @@
 import Fx.Index
 import Fx.Lemmas.Generic
 import Fx.Props.C13
+import Fx.Lemmas.Membership
+import Fx.Props.C12
 namespace Fx.C11
 open Fx
 
@@ -95,6 +97,82 @@ theorem C11_type_index_order_independent {items items' : List Item} (hp : items.
 theorem C11_generic_index_order_independent {items items' : List Item} (hp : items.Perm items') (n : String) :
     n ∈ GenericIndex.new items ↔ n ∈ GenericIndex.new items' :=
   C13.C13_order_independent (hp.filterMap gitemOf) n
+
+/-- on fresh, pairwise different keys `ConstantIndex::new` is the plain fold of `BTreeMap::insert` -/
+theorem constInsertAll_eq_foldl (es : List (String × ConstantType)) (m : List (String × ConstantType))
+    (hnd : (es.map (·.1)).Nodup) (hfresh : ∀ e ∈ es, bhas e.1 m = false) :
+    constInsertAll es m = .ok (es.foldl (fun m kv => bins kv.1 kv.2 m) m) := by
+  induction es generalizing m with
+  | nil => rfl
+  | cons e rest ih =>
+    obtain ⟨k, v⟩ := e
+    simp only [constInsertAll]
+    have h0 : bhas k m = false := hfresh (k, v) List.mem_cons_self
+    simp only [h0, Bool.false_eq_true, if_false, List.foldl_cons]
+    simp only [List.map_cons, List.nodup_cons] at hnd
+    apply ih _ hnd.2
+    intro e he
+    have hne : e.1 ≠ k := by
+      intro heq
+      apply hnd.1
+      rw [← heq]
+      exact List.mem_map_of_mem he
+    have := hfresh e (List.mem_cons_of_mem _ he)
+    unfold bhas at this ⊢
+    rw [Fx.C12.bget_bins_other k e.1 v m hne]; exact this
+
+def itemConstEntries : Item → List (String × ConstantType)
+  | .constant n v => [(n, .constValue v)]
+  | .enum e => e.variants.map (fun v => (v.name, ConstantType.enumValue e.name v.name))
+  | _ => []
+
+theorem constEntries_eq_flatMap : ∀ (items : List Item), constEntries items = items.flatMap itemConstEntries := by
+  intro items
+  induction items with
+  | nil => rfl
+  | cons it rest ih =>
+    cases it <;> simp [constEntries, itemConstEntries, List.flatMap_cons, ih]
+
+/-- the constant index does not depend on the order of the declarations (no name declared twice; with a duplicate it panics
+    in every order — K6.d) -/
+theorem C11_constant_index_order_independent {items items' : List Item} (hp : items.Perm items')
+    (hd : ((constEntries items).map (·.1)).Nodup) :
+    ConstantIndex.new items = ConstantIndex.new items' := by
+  have hperm : (constEntries items).Perm (constEntries items') := by
+    rw [constEntries_eq_flatMap, constEntries_eq_flatMap]
+    exact hp.flatMap_right itemConstEntries
+  have hd' : ((constEntries items').map (·.1)).Nodup := (hperm.map (·.1)).nodup_iff.mp hd
+  unfold ConstantIndex.new
+  rw [constInsertAll_eq_foldl _ [] hd (fun _ _ => rfl), constInsertAll_eq_foldl _ [] hd' (fun _ _ => rfl)]
+  congr 1
+  apply foldl_bins_perm hperm
+  have := List.nodup_iff_pairwise_ne.mp hd
+  exact (List.pairwise_map.mp this)
+
+/-- **C11 (declaration order).**  Reordering the top-level declarations in any way — forward references, cycles and all —
+    leaves the generated module unchanged: the three indexes determine the same constants and types and the same *set* of
+    generic names, and the emitters consult the generic index only through membership (`generateModule_membership_only`),
+    so not even the iteration order of the real `HashSet` can show.  (Names declared once; duplicates are K6.d / rustc errors.) -/
+theorem C11_generate_order_independent {items items' : List Item} (hp : items.Perm items')
+    (hdT : (items.filterMap typeEntry).Pairwise (fun a b => a.1 ≠ b.1))
+    (hdC : ((constEntries items).map (·.1)).Nodup)
+    (a a' : Ast) (ha : Ast.ofItems items = .ok a) (ha' : Ast.ofItems items' = .ok a') :
+    generateModule a = generateModule a' := by
+  have hc := C11_constant_index_order_independent hp hdC
+  have ht := C11_type_index_order_independent hp hdT
+  unfold Ast.ofItems at ha ha'
+  cases h1 : ConstantIndex.new items with
+  | panicAt f m => simp [h1] at ha
+  | ok cs =>
+    rw [← hc, h1] at ha'
+    simp only [h1, Out.bind_ok] at ha ha'
+    cases ha; cases ha'
+    rw [← ht]
+    apply generateModule_membership_only
+    intro n
+    have := C11_generic_index_order_independent hp n
+    rw [Bool.eq_iff_iff]
+    simpa using this
 
 /-- non-vacuity -/
 example : TypeIndex.new [.enum ⟨"b", []⟩, .enum ⟨"a", []⟩] = TypeIndex.new [.enum ⟨"a", []⟩, .enum ⟨"b", []⟩] := by decide
